@@ -1,4 +1,4 @@
 From Coq Require Import Extraction ExtrOcamlBasic.
-From LBZ Require Import Dec.Prog Dec.Format Dec.Delta Dec.Policies.
+From LBZ Require Import Dec.Prog Dec.Format Dec.Delta Dec.Policies Dec.Inspect.
 Extraction Language OCaml.
-Extraction "Extract/ml/dec_model.ml" lbz_decode ref_decode ref_noexc_decode ref_lenient_decode decode_file_info lbz_policy ref_policy tables_prefix_consistent sel_table_ok.
+Extraction "Extract/ml/dec_model.ml" lbz_decode ref_decode ref_noexc_decode ref_lenient_decode decode_file_info lbz_policy ref_policy tables_prefix_consistent sel_table_ok inspect_file.
